@@ -96,6 +96,15 @@ vf::Result sub_RT_exec(uint16_t w, uint16_t x, uint64_t seed) {
     icase::IResult r1 = sut().exec(c);
     c.opcode = p.opcode;
     icase::IResult r2 = sut().exec(c);
+    // program and data space share one array: an instruction whose data operand is its own first / second word sees the differing
+    // encoding as *data*; that is no difference in execution
+    {
+        uint32_t pc = (uint32_t)c.st[flat::F_pc];
+        size_t idx = 0, nfetch = 1 + (i.expanded ? 1 : 0);
+        for (auto& a : r1.log)
+            if (idx++ >= nfetch && !a.write && (a.addr == (pc & 0x3FFFF) || a.addr == ((pc + 1) & 0x3FFFF)))
+                return vf::Result::pass();
+    }
     if (r1.outcome != r2.outcome || (r1.outcome == 0 && (!(r1.after == r2.after) || r1.writes != r2.writes)))
         return vf::Result::fail("C05:RT:exec:" + i.name, "'" + join(t0, " ") + "': " + vf::hex(w) + " and its re-assembly " + vf::hex(p.opcode) +
                                                              " execute differently: " + flat::diff(r1.after, r2.after));
